@@ -1,3 +1,4 @@
+import Mdsort.Proofs.GenBridge
 import Mdsort.Model.Flags
 import Mdsort.Model.Scripts
 import Mdsort.Proofs.LimitsText
@@ -42,9 +43,11 @@ by `C18_L0_truncation_never_used` (index level, where the truncation IS in the b
 `C18_defaultconf_exact` / `_needs_ge` (`snprintfInto` does truncate), not by those statements.  The theorems with content
 are the ones about what the PROGRAM does after a `none`: `C18_unit_refines`, `C18_run_units`, `C18_refines_unbounded`,
 `C18_no_truncated_path`, `C18_config_time`, `C18_interpolation_*`, `C18_sane_needed`.
-(2) `PATH_MAX = 4096`, `NAME_MAX + 1 = 256`, the TZ buffer 256 are constants written in `Model/Eval.lean` / `Model/Start.lean`
-(and again in tools/props/c18.py); they are not regenerated from <limits.h> or from the declarations of the buffers in the
-C sources, so `C18_limits` is `decide` on the model's own constants.
+(2) (package p15) `PATH_MAX`, `NAME_MAX + 1`, the TZ and host name buffers, the buffers of `defaultconf` and `expandtilde` are no
+longer constants written in the model: `tools/gen_tables.py` reads the two limits from the platform headers as the tree's
+translation units see them (`cc -E -dM`) and the declared size of every path / name buffer from the sources, and the model
+is defined with `Gen.*`; `C18_limits` is `decide` on the regenerated table.  (tools/props/c18.py still derives its window of
+lengths from its own probe of the limits.)
 (3) In `C18_no_truncated_path` the segment `rest` (everything after the releases of the first unit that overflowed) is not
 constrained by that statement beyond "the run ends with the error flag and a non-zero status"; for it the claim "no
 truncated path" rests on `C18_run_units` + `C18_unit_no_truncated_path` (every later unit, from whatever state it starts
@@ -77,8 +80,35 @@ theorem C18_strlcpy_exact (n : Nat) (s : Bytes) :
   · have : s.length ≥ n := by omega
     simp [h, this]
 
-/-- The platform's limits as the model has them (hand-written constants of `Model/Eval.lean`; see audit note 2). -/
-theorem C18_limits : NAME_MAX1 = 256 ∧ PATH_MAX = 4096 := by decide
+/-- The limits of the model ARE the limits the sources are compiled against, and the buffers are declared with them.
+`Gen.pathMax` / `Gen.nameMax` are `PATH_MAX` / `NAME_MAX` as `cc -E -dM` reports them for a translation unit that includes
+config.h and extern.h of the tree under check (same compiler, include path and feature-test macros as its build);
+`Gen.charBuffers` lists every `char x[N]` declaration of the sources whose size mentions one of the two, plus `ev_hostname`
+and `t_buf` (`tools/gen_tables.py`, regenerated on every run; a buffer the list needs and does not find stops the run).
+* the model's two sizes are those values (on this platform 4096 and 255 + 1);
+* the buffers that carry a path - environment (`ev_home`, `ev_tmpdir`), match (`mh_path`, `mh_maildir`), maildir
+  (`md_root`, `md_path`), message (`me_path`, two locals of message.c), the static buffer of `defaultconf` - are ALL
+  declared `[PATH_MAX]`, those that carry a file name or a `new`/`cur` component `[NAME_MAX + 1]`, and nothing else is in
+  the list but the host name and zone buffers with their literal sizes: one size per kind is what `Model.Limits` assumes;
+* `stdLimits`, the TZ buffer and the buffer of `expandtilde` are the generated values.
+Declaring one of these buffers with another size, adding one, or compiling against other limits makes this false. -/
+theorem C18_limits :
+    PATH_MAX = Gen.pathMax ∧ NAME_MAX1 = Gen.nameMax + 1 ∧ Gen.pathMax = 4096 ∧ Gen.nameMax = 255 ∧
+    (Gen.charBuffers.filter (fun b => b.2.2.1 == "PATH_MAX")).map (fun b => (b.1, b.2.1, b.2.2.2)) =
+      [("extern.h", "ev_home", Gen.pathMax), ("extern.h", "ev_tmpdir", Gen.pathMax), ("extern.h", "mh_path", Gen.pathMax),
+       ("extern.h", "mh_maildir", Gen.pathMax), ("maildir.c", "md_root", Gen.pathMax), ("maildir.c", "md_path", Gen.pathMax),
+       ("message.c", "me_path", Gen.pathMax), ("message.c", "path", Gen.pathMax), ("message.c", "path", Gen.pathMax),
+       ("mdsort.c", "path", Gen.pathMax)] ∧
+    (Gen.charBuffers.filter (fun b => b.2.2.1 == "NAME_MAX + 1")).map (fun b => (b.1, b.2.1, b.2.2.2)) =
+      [("extern.h", "mh_subdir", Gen.nameMax + 1), ("maildir.c", "dstname", Gen.nameMax + 1), ("maildir.c", "name", Gen.nameMax + 1),
+       ("maildir.c", "name", Gen.nameMax + 1), ("maildir.c", "buf", Gen.nameMax + 1), ("message.c", "me_name", Gen.nameMax + 1),
+       ("message.c", "name", Gen.nameMax + 1), ("expr.c", "buf", Gen.nameMax + 1), ("expr.c", "buf", Gen.nameMax + 1)] ∧
+    Gen.charBuffers.filter (fun b => b.2.2.1 != "PATH_MAX" && b.2.2.1 != "NAME_MAX + 1") =
+      [("extern.h", "ev_hostname", "256", Gen.evHostnameSize), ("extern.h", "t_buf", "256", Gen.tzBufSize)] ∧
+    stdLimits = { pathMax := .fin Gen.pathMax, nameMax1 := .fin (Gen.nameMax + 1), hostMax := .fin Gen.evHostnameSize } ∧
+    Gen.evHomeSize = Gen.pathMax ∧ Gen.evTmpdirSize = Gen.pathMax ∧ Gen.defaultconfSize = Gen.pathMax ∧
+    Gen.expandtildeSize = Gen.pathMax ∧ TZ_BUF = Gen.tzBufSize := by
+  refine ⟨rfl, rfl, by decide, by decide, by decide, by decide, by decide, rfl, by decide, by decide, by decide, by decide, rfl⟩
 
 /-! ## the limits as parameters -/
 
@@ -453,16 +483,48 @@ theorem C18_overlong_interpolation_fails_all (L : Limits) (env : Env) (ml : Matc
     matchesInterpolateL L env ml msgs = none :=
   matchesInterpolateL_none_of_entry L env ml msgs msgs i mh hi (matchInterpolateL_overlong L _ ml i mh msgs hty p hp hfit)
 
-/-- **... and then nothing is done with the message** (all limits, whatever the calls return): when the rules match and
-`match_interpolate` fails for some entry `i` of the resulting list - wherever it stands in the list -, `processMessageL`
-issues no mutating call and starts no process for that message: every call is `openat(O_RDONLY)` / `read` / `close`, after
-the parse phase only `close`; the outcome is the error flag, the files, the log and the maildir unchanged.  In particular no
+/-- **... and then nothing is done with the message** (all limits, whatever the calls return): when in this run the rules
+match - the result `ev` of the evaluation program `evalPL L` (Model/LimitsWorld.lean; `command`, `isdirectory` and
+file-time `date` conditions call the operating system), run after the parse phase - and `match_interpolate` fails for some
+entry `i` of the resulting list - wherever it stands in the list -, `processMessageL` issues no mutating call: every call is
+one of the parse phase (`openat(O_RDONLY)` / `read` / `close`) or of evaluation (`Proofs.EvalCallOf expr`: `stat` only for a
+rule tree with an `isdirectory` or file-time `date` condition; `open("/dev/null")`, `fork`, `waitpid`, `close` only for one
+with a `command` condition - in particular no process is started for a tree without `command` conditions), in that order,
+and after them only `close`; the outcome is the error flag, the files, the log and the maildir unchanged.  In particular no
 call names `mh_path` (neither the intended path nor a truncation of it) and no later action of the list is executed. -/
 theorem C18_interpolation_failure_no_effect (L : Limits) (env : PEnv) (orc : EvalOracles) (expr : Expr) (md : Maildir) (name : Bytes)
     (st : MainSt) (d : Handle) (content p n : Bytes) (mf : MFlags) (i : Nat) (mh : Match) (msgs0 : Nat → Msg)
     (hd : md.dirH = some d) (hf : st.files.get md.path name = some content)
     (hp : pathjoinL L.pathMax md.path name = some p) (hn : strlcpyL L.nameMax1 name = some n)
     (hmf : flagsParse n = some mf)
+    (orcl : Nat → Call → Res) (ev : Tri × St)
+    (hrun : (Proofs.Own.runO orcl (evalPL L (Proofs.msgEnv env orc p) expr (parseMessage content) mf)
+      (Proofs.Own.runO orcl (messageParsePL L d md.path name content) 0).2.2).1 = ev)
+    (hev : ev.1 = .match)
+    (hi : ev.2.ml[i]? = some mh)
+    (hfail : matchInterpolateL L (some [(ofString "path", p)]) ev.2.ml i mh msgs0 = none) :
+    (runOracle orcl (processMessageL L env orc expr md name st) 0 []).1 = ({ st with error := true }, md) ∧
+    (∀ x ∈ (runOracle orcl (processMessageL L env orc expr md name st) 0 []).2,
+      (((∃ nm, x.1 = .openRd d nm) ∨ (∃ fd, x.1 = .read fd) ∨ ∃ fd, x.1 = .close fd) ∨ Proofs.EvalCallOf expr x.1) ∧
+        x.1.mutating = false ∧ (x.1 = .fork → Proofs.hasCommand expr = true)) ∧
+    ∃ E T, (runOracle orcl (processMessageL L env orc expr md name st) 0 []).2 =
+        (runOracle orcl (messageParsePL L d md.path name content) 0 []).2 ++ E ++ T ∧
+        (∀ x ∈ E, Proofs.EvalCallOf expr x.1) ∧ ∀ x ∈ T, ∃ fd, x.1 = .close fd := by
+  obtain ⟨tri, est⟩ := ev
+  simp only at hev hi hfail
+  subst hev
+  obtain ⟨h1, h2, h3⟩ := processMessageL_interp_error_run L env orc expr md name st d content p n mf est hd hf hp hn hmf orcl hrun
+      (matchesInterpolateL_none_of_entry L (Proofs.msgEnv env orc p) est.ml _ msgs0 i mh hi hfail)
+  exact ⟨h1, fun x hx => ⟨(h2 x hx).1, (h2 x hx).2, fun hfk => Proofs.ParseEvalCall.fork (hfk ▸ (h2 x hx).1)⟩, h3⟩
+
+/-- `C18_interpolation_failure_no_effect` for a rule tree without `command`, `isdirectory` and file-time `date` conditions
+(`Proofs.asksFree`), in terms of the pure evaluator `evalL`: every call is `openat(O_RDONLY)` / `read` / `close`,
+non-mutating, no `fork`, and after the parse phase only `close`. -/
+theorem C18_interpolation_failure_no_effect_pure (L : Limits) (env : PEnv) (orc : EvalOracles) (expr : Expr) (md : Maildir)
+    (name : Bytes) (st : MainSt) (d : Handle) (content p n : Bytes) (mf : MFlags) (i : Nat) (mh : Match) (msgs0 : Nat → Msg)
+    (hd : md.dirH = some d) (hf : st.files.get md.path name = some content)
+    (hp : pathjoinL L.pathMax md.path name = some p) (hn : strlcpyL L.nameMax1 name = some n)
+    (hmf : flagsParse n = some mf) (hfree : Proofs.asksFree expr = true)
     (hev : (evalL L (Proofs.msgEnv env orc p) (parseMessage content) expr 0 (parseMessage content)
       { ml := [], flags := mf }).1 = .match)
     (hi : (evalL L (Proofs.msgEnv env orc p) (parseMessage content) expr 0 (parseMessage content)
@@ -482,7 +544,7 @@ theorem C18_interpolation_failure_no_effect (L : Limits) (env : PEnv) (orc : Eva
     rw [h] at hev hi hfail
     simp only at hev hi hfail
     subst hev
-    exact processMessageL_interp_error_run L env orc expr md name st d content p n mf est hd hf hp hn hmf h
+    exact processMessageL_interp_error_run_pure L env orc expr md name st d content p n mf est hd hf hp hn hmf hfree h
       (matchesInterpolateL_none_of_entry L (Proofs.msgEnv env orc p) est.ml _ msgs0 i mh hi hfail) orcl
 
 /-- Oracles for the example: every pattern matches its subject with group 0 = group 1 = the first 8 bytes. -/
@@ -617,9 +679,9 @@ theorem C18_defaultconf_limit (home : Bytes) :
     (defaultconf PATH_MAX home).isSome = decide (home.length ≤ 4082) := by
   rw [(C18_defaultconf_exact PATH_MAX home).1]
   by_cases h : home.length ≤ 4082
-  · have : home.length + 13 < PATH_MAX := by unfold PATH_MAX; omega
+  · have : home.length + 13 < PATH_MAX := by unfold PATH_MAX; rw [Gen_pathMax_eq]; omega
     simp [h, this]
-  · have : ¬ home.length + 13 < PATH_MAX := by unfold PATH_MAX; omega
+  · have : ¬ home.length + 13 < PATH_MAX := by unfold PATH_MAX; rw [Gen_pathMax_eq]; omega
     simp [h, this]
 
 /-- Why the test is `n >= siz`: with `n > siz` (one too lenient) a home directory for which `home/.mdsort.conf` has
@@ -663,7 +725,7 @@ theorem C18_readenv_exact (raw : RawEnv) (h t : Bytes) (hh : raw.home = some h) 
   have hs : homeSource raw = some h := by unfold homeSource; rw [hh]; simp [h1]
   have ts : tmpSource raw = t := by unfold tmpSource; rw [ht]; simp [t1]
   unfold readenv
-  rw [hs, ts]
+  rw [hs, ts, Gen_evHomeSize_eq, Gen_evTmpdirSize_eq]
   unfold strlcpyFits
   by_cases c1 : h.length ≥ PATH_MAX
   · simp only [c1, if_true]
@@ -679,9 +741,103 @@ theorem C18_readenv_exact (raw : RawEnv) (h t : Bytes) (hh : raw.home = some h) 
         · simp only [c3, if_true]
         · simp only [c3, if_false]
 
+/-- The buffer sizes the model of `readenv` uses are the ones `struct environment` declares in extern.h of the tree under
+check (table regenerated on every run): `ev_home[PATH_MAX]`, `ev_tmpdir[PATH_MAX]`, `ev_hostname[256]`, `ev_tz.t_buf[256]`. -/
+theorem C18_readenv_buffers :
+    Gen.envBuffers = [("ev_home", PATH_MAX), ("ev_tmpdir", PATH_MAX), ("ev_hostname", NAME_MAX1), ("t_buf", TZ_BUF)] := by
+  decide +kernel
+
+/-- The TZ copy of `readenv` (`strlcpy(env->ev_tz.t_buf, p, sizeof(env->ev_tz.t_buf)) >= siz` => `errc`), bound 256, for
+EVERY environment: (1) never a truncation - whenever `readenv` succeeds the time zone the run continues with is exactly
+`getenv("TZ")` and it is shorter than the buffer; (2) a value that does not fit ends the run, whatever HOME and TMPDIR
+are; (3) a value that fits is accepted in full as soon as HOME and TMPDIR are; (4) an unset TZ likewise. -/
+theorem C18_readenv_tz_exact (raw : RawEnv) :
+    (∀ hm tm zo, readenv raw = .ok (hm, tm, zo) → zo = raw.tz ∧ ∀ z, raw.tz = some z → z.length < TZ_BUF) ∧
+    (∀ z, raw.tz = some z → z.length ≥ TZ_BUF → ∃ e, readenv raw = .error e) ∧
+    (∀ z hm, raw.tz = some z → z.length < TZ_BUF → homeSource raw = some hm → hm.length < PATH_MAX →
+      (tmpSource raw).length < PATH_MAX → readenv raw = .ok (hm, tmpSource raw, some z)) ∧
+    (∀ hm, raw.tz = none → homeSource raw = some hm → hm.length < PATH_MAX → (tmpSource raw).length < PATH_MAX →
+      readenv raw = .ok (hm, tmpSource raw, none)) ∧
+    TZ_BUF = 256 := by
+  refine ⟨?_, ?_, ?_, ?_, rfl⟩
+  · intro hm tm zo hr
+    unfold readenv at hr
+    split at hr
+    · cases hr
+    · split at hr
+      · cases hr
+      · split at hr
+        · cases hr
+        · split at hr
+          · rename_i hz
+            cases hr
+            exact ⟨hz.symm, fun z h => by rw [hz] at h; cases h⟩
+          · rename_i z hz
+            split at hr
+            · cases hr
+            · rename_i z' hfit
+              cases hr
+              obtain ⟨e, l⟩ := strlcpyFits_some hfit
+              subst e
+              exact ⟨hz.symm, fun w h => by rw [hz] at h; cases h; exact l⟩
+  · intro z hz hlen
+    unfold readenv
+    split
+    · exact ⟨_, rfl⟩
+    · split
+      · exact ⟨_, rfl⟩
+      · split
+        · exact ⟨_, rfl⟩
+        · rw [hz]
+          have : strlcpyFits TZ_BUF z = none := by
+            unfold strlcpyFits
+            exact if_pos hlen
+          simp only [this]
+          exact ⟨_, rfl⟩
+  · intro z hm hz hlen hh hhl htl
+    unfold readenv
+    rw [hh, Model.Gen_evHomeSize_eq, Model.Gen_evTmpdirSize_eq]
+    have h1 : strlcpyFits PATH_MAX hm = some hm := by unfold strlcpyFits; simp [Nat.not_le.mpr hhl]
+    have h2 : strlcpyFits PATH_MAX (tmpSource raw) = some (tmpSource raw) := by unfold strlcpyFits; simp [Nat.not_le.mpr htl]
+    have h3 : strlcpyFits TZ_BUF z = some z := by
+      unfold strlcpyFits
+      exact if_neg (Nat.not_le.mpr hlen)
+    simp only [h1, h2, hz, h3]
+  · intro hm hz hh hhl htl
+    unfold readenv
+    rw [hh, Model.Gen_evHomeSize_eq, Model.Gen_evTmpdirSize_eq]
+    have h1 : strlcpyFits PATH_MAX hm = some hm := by unfold strlcpyFits; simp [Nat.not_le.mpr hhl]
+    have h2 : strlcpyFits PATH_MAX (tmpSource raw) = some (tmpSource raw) := by unfold strlcpyFits; simp [Nat.not_le.mpr htl]
+    simp only [h1, h2, hz]
+
+/-- A TZ that does not fit ends the run before ANY call, with status 1, whatever the options (`-d`, `-n`, `-`), the
+configuration and the maildirs are: the program over calls is a bare `ret` and the files are the initial ones. -/
+theorem C18_readenv_tz_too_long_no_call (raw : RawEnv) (z : Bytes) (hz : raw.tz = some z) (hlen : z.length ≥ TZ_BUF)
+    (fOpt : Option Bytes) (env : PEnv) (orc : EvalOracles) (confOk : Bool) (conf : List ConfBlock) (files : Files) (input : Bytes) :
+    mainFromEnv raw fOpt env orc confOk conf files input = .ret (1, { files := files, error := true, reject := false, log := [] }) := by
+  obtain ⟨e, he⟩ := (C18_readenv_tz_exact raw).2.1 z hz hlen
+  unfold mainFromEnv startPaths
+  rw [he]
+
+/-! Non-vacuity: a TZ of 255 bytes is accepted in full, one of 256 bytes (and one of 280 or 5000) ends the run. -/
+
+example : (readenv { home := some [47], pwdir := none, tmpdir := some [47], tz := some (List.replicate 255 85), pathTmp := [] }).toOption =
+    some ([47], [47], some (List.replicate 255 85)) := by decide +kernel
+
+example : (match readenv { home := some [47], pwdir := none, tmpdir := some [47], tz := some (List.replicate 256 85), pathTmp := [] } with
+    | .error .tzTooLong => true
+    | _ => false) = true := by decide +kernel
+
+example : (match readenv { home := some [47], pwdir := none, tmpdir := some [47], tz := some (List.replicate 280 85), pathTmp := [] } with
+    | .error .tzTooLong => true
+    | _ => false) = true := by decide +kernel
+
+example : (tzState none, tzState (some []), tzState (some [85])) = (0, 1, 2) := rfl
+
 theorem readenv_ok {raw : RawEnv} {hm tm : Bytes} {z : Option Bytes} (hr : readenv raw = .ok (hm, tm, z)) :
     homeSource raw = some hm ∧ hm.length < PATH_MAX ∧ tm = tmpSource raw ∧ tm.length < PATH_MAX := by
   unfold readenv at hr
+  rw [Gen_evHomeSize_eq, Gen_evTmpdirSize_eq] at hr
   split at hr
   · cases hr
   · rename_i p hp
@@ -712,6 +868,7 @@ theorem C18_start_never_truncates (raw : RawEnv) (fOpt : Option Bytes) (home tmp
     homeSource raw = some home ∧ home.length < PATH_MAX ∧ tmpdir = tmpSource raw ∧ tmpdir.length < PATH_MAX ∧
     (fOpt = some confpath ∨ (fOpt = none ∧ confpath = home ++ confSuffix ∧ confpath.length < PATH_MAX)) := by
   unfold startPaths at h
+  rw [Gen_defaultconfSize_eq] at h
   split at h
   · cases h
   · rename_i hm tm z hr
